@@ -479,16 +479,29 @@ pub fn gen_lit(r: &mut Rng) -> String {
     }
 }
 
+pub fn bare_name(i: usize) -> String {
+    if i < VAR_NAMES.len() {
+        VAR_NAMES[i].to_string()
+    } else {
+        format!("q{}", i - VAR_NAMES.len())
+    }
+}
+pub fn braced_name(i: usize) -> String {
+    if i < BRACED_NAMES.len() {
+        BRACED_NAMES[i].to_string()
+    } else {
+        format!("b {}", i - BRACED_NAMES.len())
+    }
+}
+
 pub fn gen_var(r: &mut Rng, t: &[OpCfg], cfg: &ChainCfg) -> Atom {
     if r.below(100) < cfg.braced_pct {
-        let pool_n = cfg.n_vars.min(BRACED_NAMES.len()).max(1);
-        let name = BRACED_NAMES[r.below(pool_n)];
-        return Atom::Var(name.to_string(), true);
+        let name = braced_name(r.below(cfg.n_vars.max(1)));
+        return Atom::Var(name, true);
     }
-    let pool_n = cfg.n_vars.min(VAR_NAMES.len()).max(1);
-    let name = VAR_NAMES[r.below(pool_n)];
-    let braced = !bare_ok(name, t) || r.chance(1, 5);
-    Atom::Var(name.to_string(), braced)
+    let name = bare_name(r.below(cfg.n_vars.max(1)));
+    let braced = !bare_ok(&name, t) || r.chance(1, 5);
+    Atom::Var(name, braced)
 }
 
 pub fn gen_atom(r: &mut Rng, depth: usize, t: &[OpCfg], cfg: &ChainCfg) -> Atom {
